@@ -297,6 +297,16 @@ def tier_and_seed(argv: List[str]) -> Tuple[str, int]:
     return tier, seed
 
 
+def work_list(items_fn: Callable[[str], Any], tier: str, seed: int) -> Tuple[Any, Optional[int]]:
+    """quick: a list rotated by VERIF_SEED; thorough: the generator itself (spaces of several
+    million programs are streamed to the workers instead of being held in memory)."""
+    it = items_fn(tier)
+    if tier == "quick":
+        lst = rotate(list(it), seed)
+        return lst, len(lst)
+    return it, None
+
+
 def rotate(items: List[Any], seed: int) -> List[Any]:
     """VERIF_SEED only rotates the order in which work is handed out."""
     if not items:
